@@ -404,7 +404,7 @@ def _work_batch(pid, tier, verif_seed, start, count, known_sigs, want_digests, d
                 agg["violation"] = {"run_index": i, "run_seed": rs, "choices": r["record"], "v": r["v"], "batch_start": start}
                 break
     except BaseException:  # harness error: never a pass
-        agg["error"] = traceback.format_exc()
+        agg["error"] = f"property={pid} tier={tier} verif_seed={verif_seed} run_index={agg['last'] + (1 if agg['runs'] else 0)}\n" + traceback.format_exc()
     finally:
         faulthandler.cancel_dump_traceback_later()
     return agg
